@@ -247,6 +247,53 @@ func mapiterrand(h *hmap) uint64 {
 }
 `
 
+// deriveProposeWithTxs appends to blockchain.go a copy of Blockchain.ProposeBlock whose candidate list is a
+// parameter instead of the mempool's (the proposer with a hostile mempool): derived from the CURRENT source, so it
+// follows whatever ProposeBlock does in the tree under test. If the shape is not recognised a fallback that simply
+// calls ProposeBlock is emitted (the harness then loses that operator, nothing else).
+func deriveProposeWithTxs(fset *token.FileSet, path string, f *ast.File) {
+	ok := false
+	if f2, err := parser.ParseFile(fset, path, nil, 0); err == nil {
+		for _, d := range f2.Decls {
+			fd, isFn := d.(*ast.FuncDecl)
+			if !isFn || fd.Name.Name != "ProposeBlock" || fd.Recv == nil || fd.Body == nil {
+				continue
+			}
+			replaced := false
+			ast.Inspect(fd.Body, func(n ast.Node) bool {
+				as, isAs := n.(*ast.AssignStmt)
+				if !isAs || len(as.Rhs) != 1 {
+					return true
+				}
+				if call, isCall := as.Rhs[0].(*ast.CallExpr); isCall {
+					if sel, isSel := call.Fun.(*ast.SelectorExpr); isSel && sel.Sel.Name == "BuildBlockTransactions" && len(call.Args) == 0 {
+						as.Rhs[0] = ast.NewIdent("verifTxs")
+						replaced = true
+					}
+				}
+				return true
+			})
+			if !replaced {
+				break
+			}
+			fd.Name = ast.NewIdent("VerifProposeBlockWithTxs")
+			fd.Doc = nil
+			fd.Type.Params.List = append(fd.Type.Params.List, &ast.Field{Names: []*ast.Ident{ast.NewIdent("verifTxs")},
+				Type: &ast.ArrayType{Elt: &ast.StarExpr{X: &ast.SelectorExpr{X: ast.NewIdent("types"), Sel: ast.NewIdent("Transaction")}}}})
+			f.Decls = append(f.Decls, fd)
+			ok = true
+			break
+		}
+	}
+	if !ok {
+		fmt.Println("simgen: ProposeBlock not recognised, emitting the fallback VerifProposeBlockWithTxs")
+		src := "package blockchain\nfunc (chain *Blockchain) VerifProposeBlockWithTxs(proof []byte, verifTxs []*types.Transaction) *types.BlockProposal { return chain.ProposeBlock(proof) }\n"
+		if f3, err := parser.ParseFile(fset, "verif_fallback.go", src, 0); err == nil {
+			f.Decls = append(f.Decls, f3.Decls...)
+		}
+	}
+}
+
 func runtimeOverlay(out string, ov map[string]string) {
 	gorootB, err := exec.Command("go", "env", "GOROOT").Output()
 	must(err)
@@ -322,6 +369,9 @@ func main() {
 		f, err := parser.ParseFile(fset, path, nil, parser.ParseComments)
 		if err != nil {
 			return err
+		}
+		if rel == "blockchain/blockchain.go" {
+			deriveProposeWithTxs(fset, path, f)
 		}
 		if !rewrite(fset, f, rel, &st) {
 			return nil
